@@ -181,7 +181,7 @@ CLAIMED = {
              'eval_balanced / toplevel_balanced / history_balanced (every evaluation that completes without executing set-scope / unset-scope - Bal.evalR, a proven '
              'restriction of eval - leaves captured scope, captured group and the stack of saved positions as they were; from the top-level context back to it after any history). Correspondence: histories '
              'of nested constructs with context probes after every evaluation, Wal.run after a history vs a new interpreter; keyword bindings for '
-             'all subsets of pre-defined/fresh names (implementation-side oracle).',
+             'all subsets of pre-defined/fresh names (implementation-side oracle). Props/C17_Neutral.lean (over Lemmas/Neu.lean): completed_evaluation_leaves_traces_and_context and history_leaves_traces_and_context — every evaluation (and every history of evaluations) the restricted evaluator evalN completes (eval without step, sample-at, unload, set-scope, unset-scope) returns with the same loaded traces, every trace at the index it had, the captured scope and group as before and no saved position pending.',
         ref='DESIGN.md §6 C17', note='The global theorem speaks about evaluations that do not execute set-scope / unset-scope (stated through the restricted evaluator evalR with evalR_sub); the '
              'globals CS / CG are ordinary variables a program may assign and are compared by the correspondence only. Keyword bindings of Wal.eval are Python glue: covered by the oracle only, not modelled.',
         technique='Lean 4 proof (balance of every evaluation by induction on fuel over all operators, per-operator restore laws, induction over histories) + correspondence and fresh-interpreter differential'),
